@@ -6,6 +6,8 @@
   deviations                       every deviation of Findings.tla switched on alone must make TLC violate the
                                    listed invariants of the models (finding reproduces / invariants are not vacuous)
   corrupt                          binding: corrupt single recorded fields of a valid trace, the monitor must reject
+  mutants [ids...]                 the author's sensitivity catalogue (selftest/mutants/*.patch, scratch worktrees):
+                                   each must fail its property; the control entries must not be flagged at all
   matrix [ids...]                  which checks catch which seeded change (scratch worktrees, /repo untouched);
                                    writes seeded/MATRIX.json
   findings                         every known_findings.json entry is demonstrated on the real code before its repair
@@ -112,6 +114,9 @@ def main(args, chk):
     if what == "deviations":
         import st_models
         return st_models.deviations(chk)
+    if what == "mutants":
+        import st_models
+        return st_models.mutants(chk, rest)
     if what == "matrix":
         import st_models
         return st_models.matrix(chk, rest)
